@@ -326,5 +326,6 @@ func (s *recMonitor) MetricNames(ctx context.Context, in struct{}, out *[]string
 // ---- IPFSConnector (add endpoint) ----
 
 func (s *recIPFS) BlockPut(ctx context.Context, in *api.NodeWithMeta, out *struct{}) error {
+	noteBlock(in.Cid)
 	return s.r.rec("IPFSConnector.BlockPut", "blk", strconv.Itoa(len(in.Data)))
 }
